@@ -117,6 +117,12 @@ class Fixture(object):
         # ... nor on a translation that was given up half way: an action of ANOTHER model that declares the usual variable
         # names with unusual types inside nested blocks and then refers to a variable nobody declared
         poison_prebuild()
+        # (the abandoned translation parsed its text successfully: the rejected text once more, so that it is the LAST thing
+        # the parser saw before the translation under test - seed C06-b had slipped through in between)
+        try:
+            oal.parse('x = 1;\ny = 2;\n\nif (true)\n z = (3;\n')
+        except oal.ParseException:
+            pass
         prebuild.prebuild_model(self.m)
 
     def generated_text(self, c):
